@@ -2315,8 +2315,11 @@ void WriteCode(void) {
         CodeLen += ActListGran / Granularity();
     }
 
-    if ((ActPC != StructSeg) && (!ChkPC(EProgCounter() + CodeLen - 1))
-        && (CodeLen != 0)) {
+    /* first and last address: a counter below zero (RORG) is a huge unsigned
+       number, and adding the length wraps it back into the segment */
+
+    if ((ActPC != StructSeg) && (CodeLen != 0)
+        && (!ChkPC(EProgCounter()) || !ChkPC(EProgCounter() + CodeLen - 1))) {
         WrError(ErrNum_AdrOverflow);
     } else {
         LargeWord NewPC = ProgCounter() + CodeLen;
